@@ -30,6 +30,7 @@ import (
 	"fmt"
 	"io"
 	"maps"
+	"math"
 	"math/big"
 	"mime"
 	"mime/multipart"
@@ -64,6 +65,11 @@ const (
 	defaultMinWaitMSec = 30
 	defaultMaxWaitMSec = 300000
 )
+
+// maxBlobSize is the maximum size of a blob accepted from the (untrusted) registry or
+// handler. Offsets inside a blob are rounded up to chunk boundaries so sizes close to
+// MaxInt64 make that arithmetic overflow.
+const maxBlobSize = math.MaxInt64 / 2
 
 func NewResolver(cfg config.BlobConfig, handlers map[string]Handler) *Resolver {
 	if cfg.ChunkSize == 0 { // zero means "use default chunk size"
@@ -109,6 +115,9 @@ func (r *Resolver) Resolve(ctx context.Context, hosts source.RegistryHosts, refs
 	f, size, err := r.resolveFetcher(ctx, hosts, refspec, desc)
 	if err != nil {
 		return nil, err
+	}
+	if size < 0 || size > maxBlobSize {
+		return nil, fmt.Errorf("invalid blob size %d reported for %v", size, desc.Digest)
 	}
 	blobConfig := &r.blobConfig
 	return makeBlob(f,
